@@ -1323,6 +1323,12 @@ bool WFXMLScanner::scanStartTagNS(bool& gotData)
                     else if(!*namespaceURI && fXMLVersion == XMLReader::XMLV1_0)
                         emitError(XMLErrs::NoEmptyStrNamespace, attNameRawBuf);
 
+                    if (XMLString::equals(namespaceURI, XMLUni::fgXMLNSURIName))
+                        emitError(XMLErrs::NoUseOfxmlnsURI);
+                    else if (XMLString::equals(namespaceURI, XMLUni::fgXMLURIName)
+                         &&  !XMLString::equals(attLocalName, XMLUni::fgXMLString))
+                        emitError(XMLErrs::XMLURINotMatchXMLPrefix);
+
                     fElemStack.addPrefix
                     (
                         attLocalName
